@@ -313,6 +313,10 @@ pub struct World {
     pub io_calls: u64,
     /// file operations bypass the simulated file system (fidelity runs only)
     pub real_fs: bool,
+    /// row -> (first, last) column of the code on that line (from the emitter)
+    pub code_lines: HashMap<u32, (u32, u32)>,
+    /// first instruction whose position is not inside the code of any line: (pc, row, col)
+    pub pos_off_table: Option<(usize, u32, u32)>,
 }
 
 impl World {
@@ -348,6 +352,8 @@ impl World {
             log_enabled: true,
             io_calls: 0,
             real_fs: false,
+            code_lines: HashMap::new(),
+            pos_off_table: None,
         }
     }
 
